@@ -205,6 +205,7 @@ func dispatchHook(c *sumdb.Client, point string, args ...interface{}) {
 type schedItem struct {
 	client, op, file string
 	grow             string
+	head             *sumworld.HeadLabel
 }
 
 // replaySchedule replays a schedule of the model into the real client.  When the code leaves the schedule (a
@@ -260,6 +261,9 @@ func replayScheduleMode(c *core.Case, in *behaviourIn, eager bool) ([]core.Viola
 			}
 		case "Grow":
 			items = append(items, schedItem{op: "Grow", grow: "A"})
+		case "EnvStore":
+			// another honest process stores a newer head in the shared configuration file
+			items = append(items, schedItem{op: "EnvStore", head: h.Head})
 		}
 	}
 	clients := map[string]*sumdb.Client{}
@@ -358,6 +362,12 @@ func replayScheduleMode(c *core.Case, in *behaviourIn, eager bool) ([]core.Viola
 			if ops.served["A"] < w.Size["A"] {
 				ops.served["A"]++
 			}
+			ops.mu.Unlock()
+			i++
+		}
+		for i < len(items) && items[i].op == "EnvStore" {
+			ops.mu.Lock()
+			ops.cfg = w.Head(*items[i].head)
 			ops.mu.Unlock()
 			i++
 		}
